@@ -13,6 +13,7 @@ def _gets(tokens):
 
 class C08(Spec):
     prop = "C08"
+    needs_factx = True   # the driver reads Gen.pcacheInitCapacity
     lean_modules = ["SonicSpec.Props.C08"]
     rule = ("pmap: scripts of add/get/rehash with chosen hashes on the real _ProgramMap (non-trivial: at least one rehash or a probe "
             "collision); pcrace: goroutines racing Get/Compute on one real ProgramCache, final table judged by the model's invariant "
